@@ -94,8 +94,52 @@ def _written(s):
     return out
 
 
+class _LoopEnd(ast.stmt):
+    """marks the end of a loop body that was spliced into the statement list"""
+    _fields = ()
+
+
+def _desugar(stmts):
+    """conditional expressions at statement level become branches: `return a if c else b`, `x = a if c else b` (also inside compound statements).
+    Statements without one are kept as the very same nodes (rules identify loops and with-blocks by identity); a rewritten compound statement remembers the
+    original in `_orig`, which is what the events carry"""
+    out, changed = [], False
+    for s in stmts:
+        if isinstance(s, ast.Return) and isinstance(s.value, ast.IfExp):
+            e = s.value
+            n = ast.If(test=e.test, body=_desugar([ast.copy_location(ast.Return(value=e.body), s)])[0], orelse=_desugar([ast.copy_location(ast.Return(value=e.orelse), s)])[0])
+            out.append(ast.copy_location(n, s))
+            changed = True
+        elif isinstance(s, ast.Assign) and isinstance(s.value, ast.IfExp):
+            e = s.value
+            n = ast.If(test=e.test, body=_desugar([ast.copy_location(ast.Assign(targets=s.targets, value=e.body), s)])[0],
+                       orelse=_desugar([ast.copy_location(ast.Assign(targets=s.targets, value=e.orelse), s)])[0])
+            out.append(ast.copy_location(n, s))
+            changed = True
+        elif isinstance(s, (ast.If, ast.For, ast.While, ast.With, ast.Try)):
+            new_fields = {}
+            for f in ('body', 'orelse', 'finalbody'):
+                if getattr(s, f, None):
+                    nl, ch = _desugar(getattr(s, f))
+                    if ch:
+                        new_fields[f] = nl
+            if new_fields:
+                c = copy.copy(s)
+                for f, nl in new_fields.items():
+                    setattr(c, f, nl)
+                c._orig = getattr(s, '_orig', s)
+                out.append(c)
+                changed = True
+            else:
+                out.append(s)
+        else:
+            out.append(s)
+    return out, changed
+
+
 def enumerate_paths(stmts, cap=5000):
     paths = []
+    stmts = _desugar(list(stmts))[0]
 
     def const_of(v):
         if isinstance(v, ast.Constant):
@@ -171,17 +215,30 @@ def enumerate_paths(stmts, cap=5000):
                 paths.append(evs + [Ev('return' if isinstance(s, ast.Return) else 'raise', s, None, env)])
                 return
             if isinstance(s, (ast.For, ast.While)):
-                walk(rest, evs + [Ev('loop', s, False, env)], env, facts, decided)
-                body = [x for x in s.body]
-                walk(body + rest, evs + [Ev('loop', s, True, env)], env, facts, decided)
+                walk(rest, evs + [Ev('loop', getattr(s, '_orig', s), False, env)], env, facts, decided)
+                body = [x for x in s.body] + [_LoopEnd()]
+                walk(body + rest, evs + [Ev('loop', getattr(s, '_orig', s), True, env)], env, facts, decided)
                 return
-            if isinstance(s, (ast.Continue, ast.Break)):
+            if isinstance(s, _LoopEnd):
                 continue
+            if isinstance(s, (ast.Continue, ast.Break)):
+                # leaves the innermost loop body (bodies are entered at most once, so `continue` and `break` both resume after it); in a bare loop body
+                # handed to enumerate_paths the path ends here
+                after = None
+                for j, s2 in enumerate(rest):
+                    if isinstance(s2, _LoopEnd):
+                        after = rest[j + 1:]
+                        break
+                if after is None:
+                    paths.append(evs + [Ev('end', ast.Pass(), None, env)])
+                else:
+                    walk(after, evs, env, facts, decided)
+                return
             if isinstance(s, ast.Try):
                 walk(list(s.body) + list(s.orelse) + list(s.finalbody) + rest, evs, env, facts, decided)
                 return
             if isinstance(s, ast.With):
-                walk(list(s.body) + rest, evs + [Ev('stmt', s, None, env)], env, facts, decided)
+                walk(list(s.body) + rest, evs + [Ev('stmt', getattr(s, '_orig', s), None, env)], env, facts, decided)
                 return
             evs = evs + [Ev('stmt', s, None, env)]
             w = _written(s)
@@ -303,4 +360,23 @@ def stores_on(path):
                 out.append((i, ast.unparse(tt).replace(' ', ''), resolve(e.node.value, e.env)))
         elif e.kind == 'stmt' and isinstance(e.node, ast.AnnAssign) and e.node.value is not None:
             out.append((i, ast.unparse(e.node.target).replace(' ', ''), resolve(e.node.value, e.env)))
+    return out
+
+
+def path_facts(path):
+    """[(expression, truth)]: the atomic facts the path has established by the way it decided its tests - tests are taken with the path-local names substituted,
+    negations stripped, a false `a or b` gives both false, a true `a and b` both true"""
+    out = []
+
+    def add(t, truth):
+        while isinstance(t, ast.UnaryOp) and isinstance(t.op, ast.Not):
+            t, truth = t.operand, not truth
+        if isinstance(t, ast.BoolOp) and ((isinstance(t.op, ast.Or) and not truth) or (isinstance(t.op, ast.And) and truth)):
+            for v in t.values:
+                add(v, truth)
+        else:
+            out.append((t, truth))
+    for e in path:
+        if e.kind == 'cond':
+            add(resolve(e.node, e.env), e.truth)
     return out
